@@ -256,6 +256,22 @@ func taskBody(env *taskEnv, t *TaskScn) func() string {
 			err := r.Render(w, env.shared)
 			return fmt.Sprintf("err=%v\n%s", err, sw.Buf)
 		}
+	case "render-html":
+		// the convenience entry point most callers use (it builds its renderer
+		// itself), plus the exported helpers a caller may use directly on
+		// strings taken from the shared tree
+		return func() string {
+			sw, w := newSimWriter(t.Writer)
+			err := commonmark.RenderHTML(w, env.shared, env.sharedRefs)
+			var sb strings.Builder
+			fmt.Fprintf(&sb, "err=%v\n%s\n", err, sw.Buf)
+			for _, k := range sortedRefKeys(env.sharedRefs) {
+				d := env.sharedRefs[k].Destination
+				simrt.Yield(siteFilter)
+				fmt.Fprintf(&sb, "%q>%q e%v g%v|", d, commonmark.NormalizeURI(d), commonmark.IsEmailAddress(d), commonmark.FilterTagGFM([]byte(k)))
+			}
+			return sb.String()
+		}
 	case "append":
 		return func() string {
 			r := env.sharedR
